@@ -300,6 +300,29 @@ IndexRefused(i, what) ==
     /\ what \in {"neg_step", "mask_short", "mask_long", "int_high", "int_low", "array_high"}
     /\ UNCHANGED <<pool, ghost>>
 
+(* HistogramCollection(pool[1], pool[2]).sum() into slot k: the sum of the members *)
+CollSum(k) ==
+    /\ Live /\ On("CollSum") /\ Has(1) /\ Has(2) /\ Free(k) /\ SameBins(pool[1], pool[2])
+    /\ Small(Plus(pool[1], pool[2]))
+    /\ pool' = [pool EXCEPT ![k] = Plus(pool[1], pool[2])]
+    /\ ghost' = [ghost EXCEPT ![k] = GUnion(ghost[1], ghost[2])]
+
+(* HistogramCollection(pool[1], pool[2]).normalize_bins(inplace): every member's content becomes its share of the *)
+(* bin's total over the members: ShareTable[i][b] = <<freq_i[b], total[b]>> over a common denominator (bins with an     *)
+(* empty total are left open); the conformance engine evaluates the same quotient on the pre-state's values.          *)
+(* With inplace = FALSE the members themselves must stay untouched.                                                 *)
+ShareTable == [i \in 1..2 |-> [b \in 1..Len(pool[1].freq) |->
+                  <<pool[i].freq[b] * pool[3 - i].den, pool[1].freq[b] * pool[2].den + pool[2].freq[b] * pool[1].den>>]]
+CollNormBins(inplace) ==
+    /\ Live /\ On("CollNormBins") /\ Has(1) /\ Has(2) /\ SameBins(pool[1], pool[2])
+    /\ ~inplace
+    /\ UNCHANGED <<pool, ghost>>
+
+(* c = HistogramCollection(pool[1], pool[2]).copy(); c[0].fill(p): the copy's members are independent of the originals *)
+CollCopyFill(p) ==
+    /\ Live /\ On("CollCopyFill") /\ Has(1) /\ Has(2) /\ SameBins(pool[1], pool[2])
+    /\ UNCHANGED <<pool, ghost>>
+
 (* del k *)
 Drop(k) ==
     /\ Live /\ On("Drop") /\ Has(k)
@@ -331,6 +354,9 @@ Next ==
     \/ \E i \in Ids, ip \in BOOLEAN : MergeFracRefused(i, ip)
     \/ \E i, k \in Ids, t \in MinFreqs, ip \in BOOLEAN : MergeMinFreq(i, t, ip, k)
     \/ \E k \in Ids : Drop(k)
+    \/ \E k \in Ids : CollSum(k)
+    \/ \E ip \in BOOLEAN : CollNormBins(ip)
+    \/ \E p \in FillPos : CollCopyFill(p)
     \/ \E i \in Ids, ix \in -6..5, lo, hi \in EdgeVals, num \in (IF On("GetBin") THEN 0..MaxVal ELSE {}) : GetBin(i, ix, lo, hi, num)
     \/ \E i, k \in Ids, idx \in TakeArgs, how \in {"mask", "array", "list"} : Take(i, idx, how, k)
     \/ \E i, k \in Ids, idx \in TakeArgs : TakeUnsorted(i, idx, k)
@@ -405,6 +431,12 @@ SliceLaws ==
                       Total(x) + x.under + x.over = Total(pool[i]) + pool[i].under + pool[i].over
                 /\ \A b \in 1..Len(x.bins) : x.bins[b] = pool[i].bins[lo + b] /\ x.freq[b] = pool[i].freq[lo + b]
                                                /\ x.err2[b] = pool[i].err2[lo + b]
+
+(* C06: after normalize_bins the members' shares in each (non-empty) bin sum to 1. *)
+SharesSumToOne ==
+    (Has(1) /\ Has(2) /\ SameBins(pool[1], pool[2])) =>
+        \A b \in 1..Len(pool[1].freq) :
+            LET t == ShareTable IN t[1][b][2] > 0 => t[1][b][1] + t[2][b][1] = t[1][b][2]
 
 (* C12: an action on one member leaves every other member unchanged. *)
 Independence ==
